@@ -22,7 +22,7 @@ from typing import Dict, List, Optional, Tuple
 
 from oqv.astutil import call_name, method_call
 from oqv.cfg import CFG
-from oqv.dataflow import DefUse
+from oqv.dataflow import DefUse, origin, origin_text
 from oqv.model import AnalysisError, Program, Unit, dotted, norm, walk_local
 from oqv.report import Check
 from rules.c05 import adjoint_base
@@ -45,9 +45,10 @@ def _resolve_name(du: DefUse, nid: int, e: ast.AST) -> ast.AST:
 
 
 def _is_adjoint_of(du: DefUse, nid: int, e: ast.AST, base: ast.AST) -> bool:
-    e = _resolve_name(du, nid, e)
-    b = adjoint_base(e)
-    return b is not None and norm(b) == norm(base)
+    """e is a spelling of base^dagger; both are compared in origin form, so neither the local
+    names nor temporaries (`op_dagger = op.conjugate().T`) matter."""
+    b = adjoint_base(origin(du, nid, e))
+    return b is not None and norm(b) == origin_text(du, nid, base)
 
 
 def _product_of_adjoint(du: DefUse, nid: int, e: ast.AST, base: ast.AST) -> bool:
@@ -59,8 +60,8 @@ def _product_of_adjoint(du: DefUse, nid: int, e: ast.AST, base: ast.AST) -> bool
         l, r = e.left, e.right
     else:
         return False
-    return _is_adjoint_of(du, nid, l, base) and norm(_resolve_name(du, nid, r)) == norm(base) \
-        or (_is_adjoint_of(du, nid, l, base) and norm(r) == norm(base))
+    return _is_adjoint_of(du, nid, l, base) and \
+        origin_text(du, nid, r) == origin_text(du, nid, base)
 
 
 def _split_terms(e: ast.AST, sign: int = 1) -> List[Tuple[Fraction, ast.AST]]:
@@ -81,9 +82,9 @@ def d1(prog: Program, chk: Check) -> None:
     chk.rule("D1", "every Lindblad dissipator is built as gamma * (LRS(L, L^dagger) - 1/2 * "
              "ACOMM(L^dagger L)): coefficient 1 on the jump term with the pair (L, L^dagger) and "
              "-1/2 on the anticommutator of exactly L^dagger L (trace annihilating)", floor=3)
-    sites = [("system:_liouvillian", "op", "left_right_super", "acommutator"),
-             ("system:SystemChain.add_site_dissipation", "op", "left_right_super", "acommutator")]
-    for q, opname, jump, acomm in sites:
+    sites = [("system:_liouvillian", "left_right_super", "acommutator"),
+             ("system:SystemChain.add_site_dissipation", "left_right_super", "acommutator")]
+    for q, jump, acomm in sites:
         u = prog.unit(q)
         du = DefUse(u, CFG(u.node, exc_edges=False))
         chk.saw(u, du.cfg)
@@ -94,22 +95,26 @@ def d1(prog: Program, chk: Check) -> None:
             v = st.value
             if not (isinstance(v, ast.BinOp) and isinstance(v.op, ast.Mult)):
                 continue
-            inner = v.right if dotted(v.left) == "gamma" else (v.left if dotted(v.right) == "gamma" else None)
-            if inner is None:
+            # rate * (jump term - 1/2 anticommutator): the factor that holds the jump term
+            has_jump = [side for side in (v.left, v.right)
+                        if any(_fn(c) == jump for c in ast.walk(side))]
+            if len(has_jump) != 1:
                 continue
+            inner = has_jump[0]
             terms = _split_terms(inner)
             nid = du.node_of(v)
-            base = ast.Name(id=opname, ctx=ast.Load())
             jump_ok = acomm_ok = False
+            base = None
             for (c, t) in terms:
                 if _fn(t) == jump and len(t.args) == 2:
-                    jump_ok = c == 1 and norm(t.args[0]) == opname and \
-                        _is_adjoint_of(du, nid, t.args[1], base)
-                if _fn(t) == acomm and len(t.args) == 1:
+                    base = t.args[0]
+                    jump_ok = c == 1 and _is_adjoint_of(du, nid, t.args[1], base)
+            for (c, t) in terms:
+                if _fn(t) == acomm and len(t.args) == 1 and base is not None:
                     acomm_ok = c == Fraction(-1, 2) and _product_of_adjoint(du, nid, t.args[0], base)
             found = True
             ok = jump_ok and acomm_ok and len(terms) == 2
-            chk.add("D1", u, f"gamma * ({norm(inner)[:90]})", ok,
+            chk.add("D1", u, f"rate * ({norm(inner)[:90]})", ok,
                     "trace annihilating form" if ok else
                     f"terms {[(str(c), norm(t)[:40]) for c, t in terms]}: tr(L rho L^dagger) is "
                     f"not cancelled by -1/2 tr({{L^dagger L, rho}}) - the dissipator changes the "
@@ -129,19 +134,26 @@ def d1(prog: Program, chk: Check) -> None:
     ok1 = all(k in kw for k in ("operator_1_l", "operator_1_r", "operator_2_l", "operator_2_r")) and \
         _is_adjoint_of(du, nid, kw["operator_1_r"], kw["operator_1_l"]) and \
         _is_adjoint_of(du, nid, kw["operator_2_r"], kw["operator_2_l"]) and \
-        norm(kw["operator_1_l"]) == "op_l" and norm(kw["operator_2_l"]) == "op_r"
+        origin_text(du, nid, kw["operator_1_l"]) != origin_text(du, nid, kw["operator_2_l"])
     kw2 = {k.arg: k.value for k in cac[0].keywords}
-    ok2 = "operator_1" in kw2 and "operator_2" in kw2 and \
-        _product_of_adjoint(du, nid, kw2["operator_1"], ast.Name(id="op_l", ctx=ast.Load())) and \
-        _product_of_adjoint(du, nid, kw2["operator_2"], ast.Name(id="op_r", ctx=ast.Load()))
+    nid2 = du.node_of(cac[0])
+    ok2 = ok1 and "operator_1" in kw2 and "operator_2" in kw2 and \
+        _product_of_adjoint(du, nid2, kw2["operator_1"], kw["operator_1_l"]) and \
+        _product_of_adjoint(du, nid2, kw2["operator_2"], kw["operator_2_l"])
     ok3 = False
     for st in walk_local(u.node):
-        if isinstance(st, ast.AugAssign) and isinstance(st.value, ast.BinOp):
+        if isinstance(st, ast.AugAssign) and isinstance(st.value, ast.BinOp) \
+                and isinstance(st.value.op, ast.Mult):
             v = st.value
-            inner = v.right if dotted(v.left) == "gamma" else None
-            if inner is not None:
-                terms = {norm(t): c for (c, t) in _split_terms(inner)}
-                ok3 = terms == {"cross_lr": Fraction(1), "cross_acomm": Fraction(-1, 2)}
+            nid3 = du.node_of(v)
+            for inner in (v.left, v.right):
+                terms = {}
+                for (c, t) in _split_terms(inner):
+                    o = origin(du, nid3, t)
+                    terms[_fn(o) or norm(o)] = c
+                if terms == {"cross_left_right_super": Fraction(1),
+                             "cross_acommutator": Fraction(-1, 2)}:
+                    ok3 = True
     chk.add("D1", u, "gamma * (cross_lr - 0.5 * cross_acomm) with (A, A^dagger) pairs",
             ok1 and ok2 and ok3,
             "trace annihilating form" if ok1 and ok2 and ok3 else
@@ -179,8 +191,13 @@ def d2(prog: Program, chk: Check) -> None:
                               f"convention all consumers rely on")
     # system._liouvillian: -1j * commutator(H)
     u = prog.unit("system:_liouvillian")
+    # the accumulator is whatever the function returns; its first (plain) assignment is the
+    # Hamiltonian part
+    rets = [r.value for r in walk_local(u.node) if isinstance(r, ast.Return)
+            and isinstance(r.value, ast.Name)]
+    acc = rets[0].id if len(rets) == 1 else None
     first = [st for st in walk_local(u.node) if isinstance(st, ast.Assign)
-             and dotted(st.targets[0]) == "liouvillian"]
+             and dotted(st.targets[0]) == acc]
     ok = False
     if first and isinstance(first[0].value, ast.BinOp) and isinstance(first[0].value.op, ast.Mult):
         l, r = first[0].value.left, first[0].value.right
@@ -193,7 +210,7 @@ def d2(prog: Program, chk: Check) -> None:
             if cval == -1j and isinstance(call, ast.Call) and _fn(call) == "commutator" \
                     and len(call.args) == 1 and norm(call.args[0]) == "hamiltonian":
                 ok = True
-    chk.add("D2", u, f"liouvillian = {norm(first[0].value) if first else '?'}", ok,
+    chk.add("D2", u, f"Hamiltonian part: {norm(first[0].value) if first else '?'}", ok,
             "Hamiltonian part -i[H, .]" if ok else "the Hamiltonian part is not -i times the commutator")
 
 
